@@ -18,6 +18,16 @@ pub fn take_log() -> Vec<u32> {
 /// expected shape: payload code + children
 pub struct T(pub u32, pub &'static [T]);
 
+/// something with a field and a method that happen to be called `arena`
+pub struct Holder {
+    pub arena: u32,
+}
+impl Holder {
+    pub fn arena(&self) -> u32 {
+        self.arena
+    }
+}
+
 /// Payload types the cases are instantiated with: `u32` itself, and `NodeId` (an arena of links
 /// to nodes of *another* arena: a macro that dispatches on the type of an entry must still treat
 /// such an entry as a value).
